@@ -918,6 +918,10 @@ class Summaries:
             args.append(IntV(ctx.ex.pbits, False, p=ZERO))          # the running index
         return [(st, Agg("adt", "core::iter::" + name, 0, args, ctx.dest_ty))]
 
+    def s_from_fn(self, ctx, st):
+        """core::iter::sources::from_fn::from_fn"""
+        return [(st, Agg("adt", "core::iter::from_fn", 0, [ctx.args[0]], ctx.dest_ty))]
+
     def s_range_contains(self, ctx, st):
         """core::ops::range::Range::contains | core::ops::range::RangeInclusive::contains | core::ops::range::RangeBounds::contains"""
         r = self.deref_arg(ctx, st, ctx.args[0])
@@ -1003,6 +1007,11 @@ class Summaries:
             z = self.adaptor_next(ctx, st, itv)
             if z is not None:
                 return z
+        if ctx.callee["name"] == "next" and isinstance(itv, Agg) and itv.name == "core::iter::from_fn" and itv.fields and isinstance(ctx.args[0], Ptr):
+            # FromFn::next calls the stored closure (FnMut, through a reference to the field that holds it)
+            p0 = ctx.args[0]
+            fptr = Ptr(p0.root, tuple(p0.path) + (("f", 0, None),), None, getattr(itv.fields[0], "ty", None), True)
+            return self.call_f(ctx, st, fptr, [])
         if ctx.callee["name"] == "next" and isinstance(itv, Agg) and itv.name == "core::iter::zip" and len(itv.fields) == 2 \
                 and isinstance(ctx.args[0], Ptr):
             z = self.zip_next(ctx, st, itv)
@@ -1244,7 +1253,7 @@ class Summaries:
         return None
 
     def s_iter_consumer(self, ctx, st):
-        """core::iter::traits::iterator::Iterator::try_for_each | core::iter::traits::iterator::Iterator::for_each | core::iter::traits::iterator::Iterator::any | core::iter::traits::iterator::Iterator::all | core::iter::traits::iterator::Iterator::fold | core::iter::traits::iterator::Iterator::try_fold"""
+        """core::iter::traits::iterator::Iterator::try_for_each | core::iter::traits::iterator::Iterator::for_each | core::iter::traits::iterator::Iterator::any | core::iter::traits::iterator::Iterator::all | core::iter::traits::iterator::Iterator::fold | core::iter::traits::iterator::Iterator::try_fold | core::iter::traits::iterator::Iterator::find | core::iter::traits::iterator::Iterator::position"""
         if ctx.r["kind"] == "body":
             return None
         ex = ctx.ex
